@@ -109,7 +109,7 @@ func genC05(rt *rapid.T) *FmtCase {
 		}
 	}
 	vc := &valConfig{maxDepth: 1}
-	fc := &fmtConfig{noStar: true, noZeroMinus: true, noW: true, noTp: true, validVerbs: true}
+	fc := &fmtConfig{noStar: true, noZeroMinus: true, noW: true, noTp: true, validVerbs: true, noHugeNumbers: true}
 	n := rapid.IntRange(1, 3).Draw(rt, "ndirs")
 	for i := 0; i < n; i++ {
 		if rapid.IntRange(0, 2).Draw(rt, "haslit") > 0 {
